@@ -109,7 +109,7 @@ def run(ctx):
         check_key_constructions(chk, "C06.e", m)
         from props.common import import_rules
 
-        import_rules(ctx, "C03", {"C03.a", "C03.c"}, "C06.f", "imported from C03 (lookups compare keys with == and find them by hash): for every label-count class Key's hasher, == and cmp use the same canonical form, and the lazily memoised hash is published (hash word before the `hashed` flag, flag read before the word) — otherwise two equal keys hash differently and get two storages", floor=7)
+        import_rules(ctx, "C03", {"C03.a", "C03.c", "C03.d"}, "C06.f", "imported from C03 (lookups compare keys with == and find them by hash): for every label-count class Key's hasher, == and cmp use the same canonical form, and the lazily memoised hash is published (hash word before the `hashed` flag, flag read before the word) — otherwise two equal keys hash differently and get two storages", floor=7)
         hf = [x for x in u.fns if x.name == "hashable" and x.j.get("impl_self") == "metrics::key::Key"]
         if hf:
             r = strip_sym(Sym(hf[0]).local(0))
